@@ -199,8 +199,8 @@ def pick (s : St) (o : PickOutcome) : Except Err (St × List Picked × List Draw
 
 /-- `set_rgen()` (called by `__init__` on a restart): SeedSequence(entropy = configured seed,
     n_children_spawned = cstep + number of recorded in-flight jobs), state from the restart file -/
-def setRgen (s : St) (savedDraws : Nat) : St :=
-  { s with entropy := s.seed, spawned := s.cstep + s.locked0.length, mainDraws := savedDraws }
+def setRgen (s : St) (savedDraws : Nat) (spawnedRec : Option Nat := none) : St :=
+  { s with entropy := s.seed, spawned := spawnedRec.getD (s.cstep + s.locked0.length), mainDraws := savedDraws }
 
 /-- the one-time restore of the scheduler stream's bit-generator state in `pick_lock`
     (the spawn counter is left alone) -/
@@ -493,13 +493,20 @@ structure Image where
   rngDraws : Nat          -- stands for `rng_state` of the scheduler stream
   seed : Nat
   lockedOrd : List Nat := []   -- third component of the `locked` entries
+  /-- `current.spawned`: the number of job streams handed out so far, written only when it is not
+      `cstep + len(locked)` (i.e. after a restart that could not re-issue every recorded job) -/
+  spawnedRec : Option Nat := none
 deriving Repr, DecidableEq
+
+/-- the `spawned` key `write_toml` writes (absent = `none`) -/
+def spawnedKey (s : St) : Option Nat :=
+  if s.spawned = s.cstep + s.locked.length then none else some s.spawned
 
 def persist (s : St) : Image :=
   { active := livePaths s,
     locked := s.locked.map (fun (es, ps) => (es.map (fun e => (e + (off : Int)).toNat), ps)),
     cstep := s.cstep, trajNum := s.trajNum, frac := s.frac, rngDraws := s.mainDraws, seed := s.seed,
-    lockedOrd := s.lockedOrd }
+    lockedOrd := s.lockedOrd, spawnedRec := spawnedKey s }
 
 /-! ### the scheduler loop (scheduler.py) over explicit outcomes -/
 
@@ -596,8 +603,10 @@ def loadPaths (s : St) (paths : List (Nat × List Rat × List Rat)) : Except Err
     from an image; `weightOf pn` = the weight vector recomputed from the stored path `pn`. -/
 def restore (im : Image) (n workers tsteps : Nat) (occ : List (List Int)) (ensEng : List (List Nat))
     (weightOf : Nat → List Rat) : Except Err St :=
+  -- `set_rgen`: the spawn counter is the stored one, else `cstep + len(locked)`
   let s0 := { blank n workers tsteps im.cstep im.trajNum im.seed occ ensEng true im.locked with
-              locked0Ord := im.lockedOrd.map some }
+              locked0Ord := im.lockedOrd.map some,
+              spawned := im.spawnedRec.getD (im.cstep + im.locked.length) }
   let paths := im.active.filterMap (fun o => o.map (fun pn =>
     (pn, weightOf pn, (im.frac.lookup pn).getD (List.replicate n 0))))
   loadPaths s0 paths
